@@ -359,6 +359,7 @@ module Mg = struct
       | ("create" | "createarch") :: _ :: pals -> Stdlib.List.iter pal_tok pals
       | "cleararch" :: pals -> Stdlib.List.iter pal_tok pals
       | ("assign" | "assignid" | "remove" | "removeid") :: _ :: _ :: p :: _ -> ignore (reg_pal (int_of_string p))
+      | "jobact" :: _ :: _ :: _ :: p :: _ -> ignore (reg_pal (int_of_string p))
       | "build" :: _ :: _ :: rest ->
           let rec go mode = function
             | [] -> ()
@@ -389,6 +390,7 @@ module Mg = struct
       | _ -> ()) lines;
     let st = ref (init (nat_of_int !maxthr) cis) in
     let jobs : (job * bool) array ref = ref [||] in      (* job, require_entity *)
+    let job_acts = ref [] in                             (* pending callback actions of the next runjob *)
     let workers = ref 0 and cap = ref 16384 in
     Stdlib.List.iter (fun l -> match split_ws l with
       | ["threads"; n] -> workers := int_of_string n
@@ -488,11 +490,16 @@ module Mg = struct
              finish !st (Printf.sprintf "%d req=%s chk=%s" (Array.length !jobs - 1)
                (String.concat "," (Stdlib.List.map (fun ((c, cst), req) -> Printf.sprintf "%d:%d" (int_of_nat c) ((if cst then 1 else 0) lor (if req then 0 else 2))) !reqs))
                (match bits_of_key !chk with [] -> "-" | l -> String.concat "," (Stdlib.List.map string_of_int l)))
+         | "jobact", [idx; kind; h; p] ->
+             job_acts := (((nat_of_int (int_of_string idx), kind = "getmut"), parse_handle h), cid p) :: !job_acts;
+             finish !st ""
          | "runjob", j :: mode :: rest ->
              let j = int_of_string j in
              let (jb, want_ent) = !jobs.(j) in
              let tov = (match rest with t :: _ -> int_of_string t | [] -> 0) in
-             (match step !st (ORunJob (jb, mode = "1", nat_of_int tov, nat_of_int !workers, nat_of_int !cap)) with
+             let acts = Stdlib.List.rev !job_acts in
+             job_acts := [];
+             (match step !st (ORunJob (jb, mode = "1", nat_of_int tov, nat_of_int !workers, nat_of_int !cap, acts)) with
               | Ok (s', RJob (last, arrays)) ->
                   !jobs.(j) <- ({ jb with j_last = last }, want_ent);
                   let arr_str ((task, idx), ents) =
@@ -587,7 +594,7 @@ module MgS = struct
         let nk h = nat_of_int (parse_k h) in
         (match opname, args with
          | ("reg" | "regs" | "maxthreads" | "threads" | "chunkcap"), _ -> ()
-         | ("arm" | "disarm" | "teardown" | "mkjob" | "runjob" | "verchunk" | "chunkfn" | "getconst" | "getmut" | "has" | "markdirty" | "valid" | "archof" | "getshared"), _ -> dump !st
+         | ("arm" | "disarm" | "teardown" | "mkjob" | "runjob" | "jobact" | "verchunk" | "chunkfn" | "getconst" | "getmut" | "has" | "markdirty" | "valid" | "archof" | "getshared"), _ -> dump !st
          | ("create" | "createarch"), tid :: pals -> let (m, sids) = Mg.parse_pals pals in
              apply (XoCreate (ni tid, n_of_int m, Stdlib.List.map nat_of_int sids, opname = "createarch"))
          | "destroy", [tid; h] -> apply (XoDestroy (ni tid, nk h))
